@@ -272,7 +272,7 @@ var checks = []Check{
 		Jobs: []Job{
 			{Pkg: "proc/redis", Scenarios: []string{"C12/slots"}, Shards: 1, QuickS: 120, ThoroughS: 240},
 			{Pkg: "proc/redis", Scenarios: []string{"C12/concurrent"}, Shards: 4, QuickS: 60, ThoroughS: 240},
-			{Pkg: "proc/redis", Scenarios: []string{"C12/redirect-learning"}, Shards: 4, QuickS: 60, ThoroughS: 240},
+			{Pkg: "proc/redis", Scenarios: []string{"C12/redirect-learning", "C12/reported-table"}, Shards: 4, QuickS: 60, ThoroughS: 240},
 			{Pkg: "proc/redis", Scenarios: []string{"C14/commands"}, Shards: 12, QuickS: 120, ThoroughS: 240}, // end to end: every forwarded command arrives at the owner of its first key
 		},
 	},
